@@ -53,7 +53,7 @@ def _finish(m, sig, designer_terms, private_terms):
     return True
 
 
-OWN = ("i", "j", "k", "u", "b", "r", "q", "s", "d", "dd")  # names the designer (this harness) gives to other objects of the same module
+OWN = ("i", "j", "k", "u", "b", "r", "q", "s", "d", "dd", "bp")  # names the designer (this harness) gives to other objects of the same module
 
 
 def _site(site, nm, nm2, late):
@@ -157,6 +157,13 @@ def _inst_site(site, nm, late):
         m.i = C({})(b=h.NoConn())
         m.j = C({})(a=m.i.a, b=s)
         m.k = C({})(a=s, b=h.NoConn(name="xy"))
+    elif site == 13:
+        # an instance bundle over a bundle whose members are `p` and `p_`: the first member's retry name is the second's own
+        B2 = h.Bundle(name="B2")
+        B2.add(h.Signal(name="p"))
+        B2.add(h.Signal(name="p_"))
+        m.bp = h.BundleInstance(of=B2)
+        m.q = h.InstanceBundleType(name="BPair", bundle=B2)(C({}))(a=m.bp, b=s)
     else:
         P = h.Module(name="PCell")
         P.q, P.g = h.Port(), h.Port()
@@ -223,7 +230,7 @@ def site7_retry(nm, nm2, late):
     return _site(7, nm, nm2, late)
 
 
-for _k, _txt in {5: "array element (r_0, r_1)", 6: "pair member (q_p, q_n)", 11: "implicit port-reference signal (i_a), unnamed no-connect (i_b) and named no-connect (xy) against a designer INSTANCE"}.items():
+for _k, _txt in {5: "array element (r_0, r_1)", 6: "pair member (q_p, q_n)", 13: "members q_p, q_p_ of an instance bundle over a bundle with signals p and p_", 11: "implicit port-reference signal (i_a), unnamed no-connect (i_b) and named no-connect (xy) against a designer INSTANCE"}.items():
     def _mk2(k):
         def f(nm, late):
             return _inst_site(k, nm, late)
